@@ -155,7 +155,8 @@ Definition seq_entries (names : list string) : list sentry := seq_from 0 names.
 Definition tables : list stable := [
   mkST "TINY" "TINY_" (seq_entries ["NONE"; "VER"; "CLOSE"; "PING"; "REPLY"; "VTC"; "SCP"; "SST"; "GTH"; "MPE"; "ISM"; "REN"; "CLR"; "NCN"; "NPL";
                                     "RES"; "NLP"; "MCI"; "REO"; "RST"; "AXI"; "AXC"; "RIP"; "NCI"; "ALC"; "AXM"; "SLC"; "MAL"; "PLH"; "IPB"]);
-  mkST "SMALL" "SMALL_" (seq_entries ["NONE"; "SSP"; "SSG"; "VTA"; "TMS"; "STP"; "RTP"; "NLI"; "ALC"; "LCS"; "LCL"; "AII"]);
+  (* SMALL_AII (11) belongs to the later revision of the document that also adds IS_AIC / IS_AII: unasserted *)
+  mkST "SMALL" "SMALL_" (seq_entries ["NONE"; "SSP"; "SSG"; "VTA"; "TMS"; "STP"; "RTP"; "NLI"; "ALC"; "LCS"; "LCL"] ++ [vu "AII" 11]);
   mkST "TTC" "TTC_" [vr "NONE" 0; v "SEL" 1; v "SEL_START" 2; v "SEL_STOP" 3];
   mkST "VIEW" "VIEW_" [v "FOLLOW" 0; v "HELI" 1; v "CAM" 2; v "DRIVER" 3; v "CUSTOM" 4; v "ANOTHER" 255];
   mkST "RACEINPROG" "" [vn "No" 0; vn "Racing" 1; vn "Qualifying" 2];
